@@ -8,31 +8,53 @@
    scanning two rows one finds  DOUBLE_WIDTH OVER_TOP | DOUBLE_HEIGHT / DOUBLE_HEIGHT2 | DOUBLE_SIZE OVER_TOP /
    DOUBLE_SIZE2 OVER_BOTTOM; every cell carries the code of its anchor).
 
-   A page is [rows, cols, sz] (sz row-major, vbi_size values).  What the full-page rendering shows in a cell is
-   Shown: the glyph of the cell itself (its own vertical half when it is part of a double height / size
-   character), the left half when it is the anchor of a wide character, the right half of its left neighbour
-   when it is an OVER_TOP / OVER_BOTTOM cell.  Pixels inside a cell are not modelled: the oracle for a cell is
-   the library's full-page rendering, as the statement defines it.
+   A page is [rows, cols, sz] (sz row-major, vbi_size values).  Any arrangement of sizes is a page: the
+   formatter clips a character at the page's edge (a double width / size character in the LAST column has no
+   OVER_TOP cell, its right half lies outside the page; a double height / size character in the LAST row has no
+   lower half), enhancement data and the artificial 41st column leave continuation cells without an anchor, and
+   vbi_page is a public structure.  WellFormed describes the arrangement of format.h where everything fits.
+
+   What the full-page rendering shows in a cell is Shown: the glyph of the cell itself (its own vertical half
+   when it is part of a double height / size character), the left half when the cell is wide, the right half of
+   its left neighbour when it is an OVER_TOP / OVER_BOTTOM cell next to a wide cell, a blank when such a cell
+   has no wide left neighbour.  Pixels inside a cell are not modelled: the oracle for a cell is the library's
+   full-page rendering, as the statement defines it.
+
+   The canvas of the model is the image of the page plus one MARGIN column right of the page's last column: it
+   stands for whatever lies there in memory (the padding of a pixel line, the beginning of the next pixel line,
+   the bytes behind the canvas).  No region contains a margin cell.
 
    Post is the specification of a region draw: exactly the cells of the region become Shown, every other cell
-   (and every byte that is not part of a cell of the region: line padding, memory before and after the canvas)
-   stays untouched - for every region, stride and format; an unsupported format draws nothing.  Paint is the
-   drawing procedure the documentation of the character drawing routine describes (a cell paints itself, a wide
-   cell also its right half, OVER_ cells paint nothing), clipped to the region when Clip is TRUE.  TLC checks
-   that Paint implements Post and the frame condition.                                                    *)
+   (and every byte that is not part of a cell of the region: line padding, memory before and after the canvas,
+   the margin) stays untouched - for every region, stride and format; an unsupported format draws nothing.
+   Paint is the drawing procedure the documentation of the character drawing routine describes (a cell paints
+   itself, a wide cell also its right half, OVER_ cells with a wide left neighbour paint nothing), with the
+   right half clipped according to Clip:
+     "region"  the right half is drawn iff its cell belongs to the region                    (the design)
+     "inside"  clipping only when the region's right edge lies inside the page: a region ending at the page's
+               right edge draws a wide cell of the last column at full width                 (broken design)
+     "none"    the right half is always drawn                                                (broken design)
+   TLC checks that Paint under "region" implements Post and the frame condition, and that the two broken designs
+   violate the frame condition (companion configurations).                                                *)
 EXTENDS Naturals, Sequences, FiniteSets, TLC
 
 Wide(z) == z \in {1, 3, 7}            \* DOUBLE_WIDTH, DOUBLE_SIZE, DOUBLE_SIZE2: the right half lies in the next column
-Covered(z) == z \in {4, 5}            \* OVER_TOP, OVER_BOTTOM: painted by the left neighbour
+Covered(z) == z \in {4, 5}            \* OVER_TOP, OVER_BOTTOM: painted by a wide left neighbour
 Supported(fmt) == fmt \in {"RGBA32_LE", "PAL8"}
 
+IsPage(p) == p.rows >= 1 /\ p.cols >= 1 /\ DOMAIN p.sz = 1..(p.rows * p.cols) /\ \A i \in DOMAIN p.sz : p.sz[i] \in 0..7
 Sz(p, r, c) == p.sz[(r - 1) * p.cols + c]
 Cells(p) == (1..p.rows) \X (1..p.cols)
+Area(p) == (1..p.rows) \X (1..(p.cols + 1))          \* the page image and the margin column
+Margin(p) == {<<r, p.cols + 1>> : r \in 1..p.rows}
+OnPage(p, r, c) == r \in 1..p.rows /\ c \in 1..p.cols
 U == [src |-> <<0, 0>>, half |-> "untouched"]
-Shown(p, r, c) == IF Covered(Sz(p, r, c)) THEN [src |-> <<r, c - 1>>, half |-> "right"]
+LeftWide(p, r, c) == c > 1 /\ Wide(Sz(p, r, c - 1))
+Shown(p, r, c) == IF Covered(Sz(p, r, c))
+                  THEN (IF LeftWide(p, r, c) THEN [src |-> <<r, c - 1>>, half |-> "right"] ELSE [src |-> <<r, c>>, half |-> "blank"])
                   ELSE [src |-> <<r, c>>, half |-> IF Wide(Sz(p, r, c)) THEN "left" ELSE "whole"]
 
-\* pages as the formatter produces them (format.h)
+\* pages where every character fits (format.h)
 WellFormed(p) ==
   \A rc \in Cells(p) : LET r == rc[1]  c == rc[2]  z == Sz(p, r, c) IN
     /\ Wide(z) => c < p.cols /\ Sz(p, r, c + 1) = (IF z = 7 THEN 5 ELSE 4)
@@ -45,15 +67,30 @@ WellFormed(p) ==
 \* regions: rg = [col, row, w, h], first column / row = 1
 RegionOK(p, rg) == rg.col >= 1 /\ rg.row >= 1 /\ rg.w >= 1 /\ rg.h >= 1 /\ rg.col + rg.w - 1 <= p.cols /\ rg.row + rg.h - 1 <= p.rows
 InRegion(rg, r, c) == r >= rg.row /\ r < rg.row + rg.h /\ c >= rg.col /\ c < rg.col + rg.w
-\* the cells of the double width / double size character anchored at (r, c)
-CharCells(p, r, c) == IF Sz(p, r, c) = 1 THEN {<<r, c>>, <<r, c + 1>>}
-                      ELSE IF Sz(p, r, c) = 3 THEN {<<r, c>>, <<r, c + 1>>, <<r + 1, c>>, <<r + 1, c + 1>>} ELSE {}
-\* "cutting through a double-width or double-size character" (only anchors in or next to the region can be cut)
+EndsAtPageEdge(p, rg) == rg.col + rg.w - 1 = p.cols
+\* the cells ON THE PAGE of the double width / double size character whose (upper) left part is the cell (r, c); the lower left
+\* part of a double size character counts as a character of its own (it is one when the upper part is missing).  A character
+\* clipped by the page's edge consists of what is left of it.
+CharCells(p, r, c) == LET z == Sz(p, r, c)
+                          all == IF z \in {1, 7} THEN {<<r, c>>, <<r, c + 1>>}
+                                 ELSE IF z = 3 THEN {<<r, c>>, <<r, c + 1>>, <<r + 1, c>>, <<r + 1, c + 1>>} ELSE {}
+                      IN {x \in all : OnPage(p, x[1], x[2])}
+\* "cutting through a double-width or double-size character" (only characters beginning in or next to the region can be cut)
 Cuts(p, rg) == \E r \in (IF rg.row > 1 THEN rg.row - 1 ELSE 1)..(rg.row + rg.h - 1) :
                  \E c \in (IF rg.col > 1 THEN rg.col - 1 ELSE 1)..(rg.col + rg.w - 1) :
-                   /\ r <= p.rows /\ c <= p.cols /\ Sz(p, r, c) \in {1, 3}
+                   /\ r <= p.rows /\ c <= p.cols /\ Wide(Sz(p, r, c))
                    /\ LET cs == CharCells(p, r, c) IN
                       (\E x \in cs : InRegion(rg, x[1], x[2])) /\ (\E x \in cs : ~InRegion(rg, x[1], x[2]))
+\* the same, looking only at the characters that begin in the rows and columns along the region's border (a wide character
+\* reaches one column to the right and one row down)
+CutsBorder(p, rg) ==
+  LET rows == (IF rg.row > 1 THEN rg.row - 1 ELSE 1)..(rg.row + rg.h - 1)
+      cols == (IF rg.col > 1 THEN rg.col - 1 ELSE 1)..(rg.col + rg.w - 1)
+      cut(r, c) == /\ r >= 1 /\ c >= 1 /\ r <= p.rows /\ c <= p.cols /\ Wide(Sz(p, r, c))
+                   /\ LET cs == CharCells(p, r, c) IN
+                      (\E x \in cs : InRegion(rg, x[1], x[2])) /\ (\E x \in cs : ~InRegion(rg, x[1], x[2]))
+  IN \/ \E r \in rows : cut(r, rg.col - 1) \/ cut(r, rg.col + rg.w - 1)
+     \/ \E c \in cols : cut(rg.row - 1, c) \/ cut(rg.row + rg.h - 1, c)
 CutsAll(p, rg) == \E rc \in Cells(p) : LET cs == CharCells(p, rc[1], rc[2]) IN
                     (\E x \in cs : InRegion(rg, x[1], x[2])) /\ (\E x \in cs : ~InRegion(rg, x[1], x[2]))
 
@@ -68,12 +105,16 @@ PostMark(p, rg, fmt, r, c) == IF Supported(fmt) /\ InRegion(rg, r, c) THEN "G" E
 
 \* ---- the drawing procedure: cells of the region in reading order
 RegionSeq(rg) == [i \in 1..(rg.w * rg.h) |-> <<rg.row + ((i - 1) \div rg.w), rg.col + ((i - 1) % rg.w)>>]
+RightHalfDrawn(p, rg, r, c, clip) ==
+  CASE clip = "region" -> InRegion(rg, r, c + 1)
+    [] clip = "inside" -> InRegion(rg, r, c + 1) \/ EndsAtPageEdge(p, rg)
+    [] clip = "none"   -> TRUE
 PaintCell(p, rg, cv, r, c, clip) ==
   LET z == Sz(p, r, c) IN
-  IF Covered(z) THEN cv
+  IF Covered(z) /\ LeftWide(p, r, c) THEN cv
   ELSE LET own == [cv EXCEPT ![<<r, c>>] = Shown(p, r, c)] IN
-       IF Wide(z) /\ <<r, c + 1>> \in DOMAIN cv /\ (clip => InRegion(rg, r, c + 1))
-       THEN [own EXCEPT ![<<r, c + 1>>] = [src |-> <<r, c>>, half |-> "right"]]
+       IF Wide(z) /\ RightHalfDrawn(p, rg, r, c, clip)
+       THEN [own EXCEPT ![<<r, c + 1>>] = [src |-> <<r, c>>, half |-> "right"]]         \* (r, c + 1) may be a margin cell
        ELSE own
 RECURSIVE PaintFrom(_, _, _, _, _)
 PaintFrom(p, rg, cv, i, clip) ==
@@ -82,40 +123,46 @@ PaintFrom(p, rg, cv, i, clip) ==
 Paint(p, rg, fmt, cv, clip) == IF Supported(fmt) THEN PaintFrom(p, rg, cv, 1, clip) ELSE cv
 
 -----------------------------------------------------------------------------
-CONSTANTS PageM,        \* the page of the model
+CONSTANTS Pages,        \* the pages of the model: the property speaks about every page
           Formats, Strides, MaxDraws,
-          Clip          \* TRUE: the drawing procedure stays inside the region.  FALSE: it paints right halves regardless
-VARIABLES canvas, ndraw, last
-vars == <<canvas, ndraw, last>>
+          Clip          \* "region": the drawing procedure stays inside the region; "inside" / "none": see above
+VARIABLES page, canvas, ndraw, last
+vars == <<page, canvas, ndraw, last>>
 
-Fresh(p) == [rc \in Cells(p) |-> U]
+Fresh(p) == [rc \in Area(p) |-> U]
 AllRegions(p) == {rg \in [col : 1..p.cols, row : 1..p.rows, w : 1..p.cols, h : 1..p.rows] : RegionOK(p, rg)}
-Init == canvas = Fresh(PageM) /\ ndraw = 0 /\ last = [rg |-> [col |-> 1, row |-> 1, w |-> 1, h |-> 1], fmt |-> "none", stride |-> "none"]
+Init == /\ page \in Pages /\ canvas = Fresh(page) /\ ndraw = 0
+        /\ last = [rg |-> [col |-> 1, row |-> 1, w |-> 1, h |-> 1], fmt |-> "none", stride |-> "none"]
 \* partial updates of one image: the canvas pointer is the region's place in the image, any stride
 Draw(rg, fmt, stride) == /\ ndraw < MaxDraws
-                         /\ canvas' = Paint(PageM, rg, fmt, canvas, Clip)
+                         /\ canvas' = Paint(page, rg, fmt, canvas, Clip)
                          /\ ndraw' = ndraw + 1 /\ last' = [rg |-> rg, fmt |-> fmt, stride |-> stride]
-Next == \E rg \in AllRegions(PageM) : \E fmt \in Formats : \E st \in Strides : Draw(rg, fmt, st)
+                         /\ UNCHANGED page
+Next == \E rg \in AllRegions(page) : \E fmt \in Formats : \E st \in Strides : Draw(rg, fmt, st)
 Spec == Init /\ [][Next]_vars
 
-ASSUME PageOK == WellFormed(PageM)
-\* never writes outside the region's rectangle - for any region, stride and format
-Frame == [][\A rc \in Cells(PageM) : ~InRegion(last'.rg, rc[1], rc[2]) => canvas'[rc] = canvas[rc]]_vars
+ASSUME PagesOK == \A p \in Pages : IsPage(p)
+\* never writes outside the region's rectangle - for any region, stride and format (the margin is outside every region)
+Frame == [][\A rc \in Area(page) : ~InRegion(last'.rg, rc[1], rc[2]) => canvas'[rc] = canvas[rc]]_vars
+MarginUntouched == \A rc \in Margin(page) : canvas[rc] = U
 \* unsupported formats draw nothing
 NothingIfUnsupported == [][~Supported(last'.fmt) => canvas' = canvas]_vars
 \* regions that do not cut a wide character: exactly the specified cells
-ImplementsPost == [][~Cuts(PageM, last'.rg) => canvas' = Post(PageM, last'.rg, last'.fmt, canvas)]_vars
+ImplementsPost == [][~Cuts(page, last'.rg) => canvas' = Post(page, last'.rg, last'.fmt, canvas)]_vars
 \* whatever has been drawn shows what the full-page rendering shows there
-Faithful == \A rc \in Cells(PageM) : canvas[rc] = U \/ canvas[rc] = Shown(PageM, rc[1], rc[2])
+Faithful == \A rc \in Cells(page) : canvas[rc] = U \/ canvas[rc] = Shown(page, rc[1], rc[2])
 \* the whole page drawn in one call is the full-page rendering, and so is any way of drawing it in pieces that
 \* cover it without cutting (e.g. row by row, as the image export modules do)
 Whole(p) == [col |-> 1, row |-> 1, w |-> p.cols, h |-> p.rows]
-ASSUME FullPageIsShown == Post(PageM, Whole(PageM), "PAL8", Fresh(PageM)) = [rc \in Cells(PageM) |-> Shown(PageM, rc[1], rc[2])]
-                   /\ Paint(PageM, Whole(PageM), "PAL8", Fresh(PageM), Clip) = [rc \in Cells(PageM) |-> Shown(PageM, rc[1], rc[2])]
-ASSUME MarksOK == \A rg \in AllRegions(PageM) : \A fmt \in Formats : \A rc \in Cells(PageM) :
-                    /\ Mark(PageM, Post(PageM, rg, fmt, Fresh(PageM)), rc[1], rc[2]) = PostMark(PageM, rg, fmt, rc[1], rc[2])
-                    /\ Cuts(PageM, rg) = CutsAll(PageM, rg)
-ASSUME RowByRow == LET RowRg(r) == [col |-> 1, row |-> r, w |-> PageM.cols, h |-> 1]
-                F[r \in 0..PageM.rows] == IF r = 0 THEN Fresh(PageM) ELSE Paint(PageM, RowRg(r), "RGBA32_LE", F[r - 1], Clip)
-            IN F[PageM.rows] = [rc \in Cells(PageM) |-> Shown(PageM, rc[1], rc[2])]
+Rendering(p) == [rc \in Area(p) |-> IF rc \in Cells(p) THEN Shown(p, rc[1], rc[2]) ELSE U]
+ASSUME FullPageIsShown == \A p \in Pages : /\ Post(p, Whole(p), "PAL8", Fresh(p)) = Rendering(p)
+                                           /\ Clip = "region" => Paint(p, Whole(p), "PAL8", Fresh(p), Clip) = Rendering(p)
+ASSUME MarksOK == \A p \in Pages : \A rg \in AllRegions(p) :
+                    /\ \A fmt \in Formats : LET cv == Post(p, rg, fmt, Fresh(p)) IN
+                         \A rc \in Cells(p) : Mark(p, cv, rc[1], rc[2]) = PostMark(p, rg, fmt, rc[1], rc[2])
+                    /\ Cuts(p, rg) = CutsAll(p, rg) /\ Cuts(p, rg) = CutsBorder(p, rg)
+ASSUME RowByRow == Clip = "region" => \A p \in Pages :
+                     LET RowRg(r) == [col |-> 1, row |-> r, w |-> p.cols, h |-> 1]
+                         F[r \in 0..p.rows] == IF r = 0 THEN Fresh(p) ELSE Paint(p, RowRg(r), "RGBA32_LE", F[r - 1], Clip)
+                     IN F[p.rows] = Rendering(p)
 =============================================================================
